@@ -1989,6 +1989,7 @@ class t2data(object):
         if MP: self.filename = 'INFILE'
         self.simulator = ''
         self.delete_section('SIMUL')
+        self.extra_precision = False # no extra precision data file in TOUGH2
         self.convert_AUTOUGH2_parameters_to_TOUGH2(warn, MP)
         self.convert_AUTOUGH2_generators_to_TOUGH2(warn)
         self.convert_short_to_history()
